@@ -1,3 +1,4 @@
+extern crate a_vf_core as vf_core;
 fn main() {
     vf_core::main_with("C03", vf_c03::run, vf_c03::REPLAY);
 }
